@@ -94,6 +94,21 @@ CHECKS['C03'] = dict(
    technique="TLA+ merge machine = contract (TLC) + spec->code replay under option rows",
    ref="5/C03")
 
+CHECKS['C04'] = dict(
+   text="Two specifications. AbbrText.tla: every balanced text payload over the punctuation alphabet (operators, brackets, quotes, *, "
+        "#, @, blanks, a non-ASCII stand-in, nested braces, backslash escapes incl. escaped $ { } and backslash) up to the bound and "
+        "simulated to 14 units; TLC checks the tokenizer-in-text-context machine (white-space token, literal() with escaped() and "
+        "nesting counter) against TextOf = payload minus escaping backslashes, and that nothing ends the text early; each payload is "
+        "replayed at seven positions text may appear in, and the printed content of the element must equal TextOf byte for byte. "
+        "AbbrWrap.tla: every list of up to 3 (simulated 6) wrap lines over 17 atoms (blank, padded, lines that look like syntax or "
+        "numbering, non-ASCII, backslash) x 15 templates (implicit repeater on elements and groups, $# in attribute and text, text "
+        "already present, numbering, no repeater); TLC checks the converter loop with its `inserted` flag against a loop-free "
+        "contract; each vector is replayed through expand(abbr, {'text': ...}) (list and, without repeater, string).",
+   note="Unescaped $ in payloads belongs to C02/C13; '<' and double quotes in lines are not generated (lexer limits). Multi-line "
+        "insertions are compared as trimmed line lists. Trusted: TLC, tag lexer.",
+   technique="TLA+ machine = contract (TLC) + spec->code replay at every text position / template",
+   ref="5/C04")
+
 NOT_YET = {}
 
 def main():
